@@ -611,7 +611,7 @@ def plan_groupby(rng, st):
         # the default blocksize (2**20 elements per spill block) costs ~0.15 s per input partition in
         # toolz.partition_all alone; most disk cases pass a small documented blocksize= instead
         # (2 or 7 elements per block also exercises several appends per partition)
-        if rng.random() < 0.88:
+        if rng.random() < 0.9 or (st.nparts or 9) > 3:
             kw["blocksize"] = rng.choice((2, 7, 1000))
             feats.append("blocksize")
     dyn = None
@@ -627,8 +627,21 @@ def plan_groupby(rng, st):
         for x in s.seq:
             groups.setdefault(g(x), []).append(x)
         return St("G", None, list(groups.items()), False, ("X", s.kind))
+    # partd fsyncs every append: on a shared box that costs up to seconds per case, so most disk shuffles are
+    # pointed at a run-private tmpfs directory through the documented ``temporary_directory`` setting
+    tmpfs = shuffle != "tasks" and _TMPFS is not None and rng.random() < 0.85
+    if shuffle != "tasks" and not tmpfs:
+        feats.append("default-tempdir")
+
+    def dask_fn(b, s):
+        import dask
+
+        if tmpfs:
+            with dask.config.set(temporary_directory=_TMPFS):
+                return b.groupby(g, **kw)
+        return b.groupby(g, **kw)
     return Step("groupby", "groupby(%s,%s)" % (_fn(g), ",".join("%s=%r" % kv for kv in sorted(kw.items()))),
-                lambda b, s: b.groupby(g, **kw), ref, feats, dyn=dyn)
+                dask_fn, ref, feats, dyn=dyn)
 
 
 def group_len(k, v): return (k, len(v))
@@ -822,7 +835,7 @@ def plan_concat(rng, st):
             seq = seq + list(a)
         return St(s.kind, None, seq, s.ordered, s.sub)
     return Step("concat", "concat(%s)" % ("self" if selfcat else "other[%d] %s%s" % (len(seq2), lay2["style"], ",self" if three else "")),
-                dask_fn, ref, ["self"] if selfcat else [])
+                dask_fn, ref, ["self"] if selfcat else (["three"] if three else []))
 
 
 def _plan_stat(name):
@@ -896,10 +909,29 @@ def cases(tier, seed):
         yield {"op": FORCED[i % len(FORCED)], "cs": rng.randrange(2 ** 31)}
 
 
+_TMPFS = None
+
+
 def shard_setup(tier, seed):
+    import atexit
+    import os
+    import shutil
+    import tempfile
     import warnings
 
+    global _TMPFS
     warnings.simplefilter("ignore")
+    if os.path.isdir("/dev/shm") and os.access("/dev/shm", os.W_OK):
+        _TMPFS = tempfile.mkdtemp(prefix="vf-c48-", dir="/dev/shm")
+        atexit.register(shutil.rmtree, _TMPFS, True)
+
+
+def shard_finish():
+    import shutil
+
+    if _TMPFS:
+        shutil.rmtree(_TMPFS, ignore_errors=True)
+    return {}
 
 
 # ---------------------------------------------------------------------------
@@ -1079,13 +1111,25 @@ def _shrink(keeps, parts, budget=160):
 
 
 ELEMENTWISE = ("map", "starmap", "filter", "remove", "pluck", "flatten", "map_partitions")
+# operation variants that read their input bag from two tasks (zip(b, b.map(f)), b.map(f, b.count()), b.product(b) ...)
+TWICE_FEATS = frozenset(("bag-arg", "bag-kwarg", "item-arg", "item-kwarg", "self", "derived", "three"))
+
+
+def _pipe_names(steps):
+    """names used in labels of failures that need the whole pipeline: earlier steps by class, a last step that
+    reads its input twice by that property (the mechanism), otherwise by name"""
+    last = steps[-1]
+    names = ["elementwise" if s.name in ELEMENTWISE else s.name for s in steps[:-1]]
+    if len(steps) > 1 and TWICE_FEATS.intersection(last.feats):
+        return names + ["input-used-twice"], []
+    return names + [last.name], None
 
 
 def _label(steps, parts, sym, how="delayed"):
     """<op>:<features>:<symptom>; for a pipeline that only fails as a whole the earlier steps are named by class"""
     last = steps[-1]
-    names = ["elementwise" if s.name in ELEMENTWISE else s.name for s in steps[:-1]] + [last.name]
-    feats = last.features(len(parts) if len(steps) == 1 else None) + G.layout_features(parts)
+    names, lf = _pipe_names(steps)
+    feats = (last.features(len(parts) if len(steps) == 1 else None) if lf is None else lf) + G.layout_features(parts)
     if how == "literal":
         feats.append("from_sequence")      # needed the graph shape of from_sequence to reproduce
     return "%s:%s:%s" % (">".join(names), "&".join(feats) if feats else "any", sym)
@@ -1151,8 +1195,11 @@ def _diagnose(ctx, steps, states, bag, parts, layout, sym, sched, detail):
         if _psym(steps, st0, parts, sched, how) == sym:
             break
     else:
-        feats = steps[-1].features(states[-1].nparts) + G.layout_features(parts)
-        ctx.violation("%s@%s:%s:%s" % (">".join(s.name for s in steps), layout["style"], "&".join(feats) if feats else "any", sym),
+        # not reproducible on a rebuilt bag (depends on key names / graph order / thread timing): label the pipeline
+        # shape only, no layout predicate can be established
+        names, lf = _pipe_names(steps)
+        feats = (steps[-1].features(None) if lf is None else lf) + ["unshrunk"]
+        ctx.violation("%s:%s:%s" % (">".join(names), "&".join(feats), sym),
                       "pipeline %s: expected %s got %s" % (detail["pipeline"], detail["expected"][:300], detail["got"][:300]), **detail)
         return
     cur = list(steps)
